@@ -944,13 +944,122 @@ def mesh_oracle(ctx, orc, impl):
             V, F = capsule_mesh(r, hh, n)
             add(mesh_user_line(rho, EXACT, (1, 1, 1), V, F), ("conv", "capsule", CAPSULE, False, rho, (r, hh, 0), n))
             add(mesh_user_line(rho, SHELL, (1, 1, 1), V, F), ("conv", "capsule-shell", CAPSULE, True, rho, (r, hh, 0), n))
+    # (4) scale: the same tessellations at small absolute sizes (sub-millimetre .. centimetre), thin plates and fine
+    #     tessellations, in exact / legacy / shell mode.  Mass properties are homogeneous in the length unit (mass ~ s^3,
+    #     inertia ~ s^5; shell s^2, s^4; com ~ s), so the scaled mesh must agree with the unit-size mesh after rescaling and
+    #     be as close to the primitive as the unit-size mesh is.  Only faces far above the documented "ignore" cutoff
+    #     (2*area < mjMINVAL = 1e-15) are generated: every face has 2*area >= 1e-10.
+    def min2area(V, F):
+        best = float("inf")
+        for (i, j, k) in F:
+            b = [V[j][q] - V[i][q] for q in range(3)]
+            c = [V[k][q] - V[i][q] for q in range(3)]
+            n = (b[1] * c[2] - b[2] * c[1], b[2] * c[0] - b[0] * c[2], b[0] * c[1] - b[1] * c[0])
+            best = min(best, math.sqrt(n[0] * n[0] + n[1] * n[1] + n[2] * n[2]))
+        return best
+
+    scale_dist = []
+    nscale = 10 if thorough else 5
+    for ci in range(nscale):
+        shape = ("prism", "prism", "capsule", "box", "bsphere")[ci] if ci < 5 else rng.choice(("prism", "capsule", "box", "bsphere"))
+        rho = rng.choice((1000.0, rng.uniform(100, 8000)))
+        if shape == "prism":
+            n = 128 if ci == 0 else rng.choice((32, 64, 128))
+            r = rng.uniform(0.3, 1.0)
+            hh = r * rng.uniform(0.02, 0.1) if (ci == 0 or rng.random() < 0.5) else rng.uniform(0.3, 1.0)
+            V, F = prism_mesh(r, hh, n)
+            t, sizes, ubound = CYLINDER, (r, hh, 0), (2 * math.pi / n) ** 2
+        elif shape == "capsule":
+            n = rng.choice((16, 32))
+            r, hh = rng.uniform(0.2, 0.6), rng.uniform(0.1, 0.8)
+            V, F = capsule_mesh(r, hh, n)
+            t, sizes, ubound = CAPSULE, (r, hh, 0), 4 * (2 * math.pi / n) ** 2
+        elif shape == "box":
+            a, b = rng.randint(8, 64) / 64.0, rng.randint(8, 64) / 64.0
+            c = rng.choice((rng.randint(1, 4) / 128.0, rng.randint(8, 64) / 64.0))
+            V, F = box_mesh(a, b, c)
+            n, t, sizes, ubound = 0, BOX, (a, b, c), 1e-6
+        else:
+            n = rng.choice((2, 3))
+            r = rng.uniform(0.3, 1.0)
+            V, F = None, None
+            t, sizes, ubound = SPHERE, (r, r, r), 0.2
+        m2a = min2area(V, F) if V else 2 * 4 * math.pi * r * r / (20 * 4 ** n) * 0.5
+        # length unit: forced sub-millimetre for the first case, log-uniform otherwise; keep 2*area >= 1e-10
+        s = 10 ** (rng.uniform(-3.5, -3.0) if ci == 0 else rng.uniform(-3.5, -2.0))
+        s = max(s, math.sqrt(1e-10 / m2a))
+        for kind in (EXACT, LEGACY, SHELL):
+            sh = kind == SHELL
+            if V:
+                ref = len(lines)
+                add(mesh_user_line(rho, kind, (1, 1, 1), V, F), ("scaleref", shape, t, sh, rho, sizes, ubound))
+                add(mesh_user_line(rho, kind, (s, s, s), V, F), ("scale", shape + ":attr", t, sh, rho, sizes, s, ref))
+                Vs = [tuple(x * s for x in v) for v in V]
+                add(mesh_user_line(rho, kind, (1, 1, 1), Vs, F), ("scale", shape + ":baked", t, sh, rho, sizes, s, ref))
+            else:
+                ref = len(lines)
+                add(mesh_builtin_line(rho, kind, (r, r, r), BSPHERE, [n]), ("scaleref", shape, t, sh, rho, sizes, ubound))
+                add(mesh_builtin_line(rho, kind, (r * s, r * s, r * s), BSPHERE, [n]), ("scale", shape + ":attr", t, sh, rho, sizes, s, ref))
+        scale_dist.append({"shape": shape, "n": n, "unit_sizes": ["%.4g" % x for x in sizes], "length_unit": "%.3e" % s,
+                           "min_2area_scaled": "%.3e" % (m2a * s * s), "density": "%.4g" % rho})
+    ctx.extra["mesh_scale_cases"] = {"rule": "shape x {exact, legacy, shell} x {scale attribute, scale baked into the float vertices}; "
+                                             "length unit 10^U(-3.5,-2) (first case 10^U(-3.5,-3), 128-gon thin disc), raised so "
+                                             "that every face has 2*area >= 1e-10; compared with the unit-size mesh after "
+                                             "rescaling (rel 1e-5) and with the primitive",
+                                     "cases": scale_dist}
     rc, outs, err = ctx.run_lines([impl], lines)
     if rc != 0 or len(outs) != len(lines):
         orc.fail("mesh:crash", "mesh harness crashed (rc=%s)" % rc, {"stderr": err[-400:]})
         return
     conv = {}
     nexact = 0
+    parsed = [parse_body_out(o) for o in outs]
+    scale_dev = {"covariance": 0.0, "primitive_excess": 0.0, "unit_primitive": 0.0}
+
+    def prim_err(res, t, sh, rho, sz):
+        M = rho * volume(t, sh, sz)
+        Iexp = sorted(inertia(t, sh, M, sz), reverse=True)
+        return max(abs(res[0] - M) / M, max(abs(x - y) for x, y in zip(sorted(res[3], reverse=True), Iexp)) / sum(Iexp))
+
     for line, out, sp in zip(lines, outs, specs):
+        if sp[0] in ("scale", "scaleref"):
+            res = parse_body_out(out)
+            rp = {"line": line[:1500], "impl_output": out, "replay": "echo '<line>' | <c35_mass harness>"}
+            if res is None:
+                orc.fail("mesh:scale:no-result", "mesh body did not compile: " + out[:120], rp)
+                continue
+            ctx.count(("mesh-scale", line[:80], len(line)))
+            if sp[0] == "scaleref":
+                _, shape, t, sh, rho, sizes, ubound = sp
+                e1 = prim_err(res, t, sh, rho, sizes)
+                scale_dev["unit_primitive"] = max(scale_dev["unit_primitive"], e1)
+                if e1 > ubound:
+                    orc.fail("mesh:scale:unit:" + shape, "unit-size %s tessellation deviates by %g (> %g) from the primitive" % (shape, e1, ubound), rp)
+                continue
+            _, tag, t, sh, rho, sizes, s, ref = sp
+            r0 = parsed[ref]
+            if r0 is None:
+                continue
+            pm, pi_ = (2, 4) if sh else (3, 5)
+            m0, c0, _, I0 = r0
+            I0s = sorted(I0, reverse=True)
+            Is = sorted(res[3], reverse=True)
+            d = max(abs(res[0] / s ** pm - m0) / m0, max(abs(x / s ** pi_ - y) for x, y in zip(Is, I0s)) / sum(I0s),
+                    max(abs(x / s - y) for x, y in zip(res[1], c0)) / max(sizes))
+            scale_dev["covariance"] = max(scale_dev["covariance"], d)
+            rp["unit_size_output"] = outs[ref]
+            rp["length_unit"] = s
+            if d > 1e-5:
+                orc.fail("mesh:scale:covariance:" + tag, "%s mesh at length unit %g: mass / inertia / com rescaled to unit size deviate by %g "
+                         "from the unit-size mesh (mass ratio %g)" % (tag, s, d, res[0] / s ** pm / m0), rp)
+                continue
+            ssz = tuple(x * s for x in sizes)
+            es, e1 = prim_err(res, t, sh, rho, ssz), prim_err(r0, t, sh, rho, sizes)
+            scale_dev["primitive_excess"] = max(scale_dev["primitive_excess"], es - e1)
+            if es > e1 + 1e-5:
+                orc.fail("mesh:scale:primitive:" + tag, "%s mesh at length unit %g deviates by %g from the primitive's mass properties "
+                         "(unit-size mesh: %g)" % (tag, s, es, e1), rp)
+            continue
         res = parse_body_out(out)
         rp = {"line": line[:1500], "impl_output": out, "replay": "echo '<line>' | <c35_mass harness>"}
         if res is None:
@@ -988,6 +1097,7 @@ def mesh_oracle(ctx, orc, impl):
             orc.fail("mesh:monotone:" + name, "tessellation error of %s does not shrink under refinement: %r" % (name, errs), seq[-1][2])
     ctx.extra["mesh_convergence_errors"] = summary
     ctx.extra["mesh_exact_cases"] = nexact
+    ctx.extra["mesh_scale_max_deviation"] = {k: "%.3e" % v for k, v in scale_dev.items()}
 
 
 def fmt_out(o):
@@ -1026,7 +1136,7 @@ def run(ctx):
                 "compiler options (boundmass, boundinertia, balanceinertia, inertiafromgeom, inertiagrouprange, settotalmass) x "
                 "0-4 grouped geoms, `redit` edit+recompile sequences (2-4 stages on one spec, 1-3 field edits per stage, mj_compile / "
                 "mj_recompile), kernel lines for the generated user_util.cc kernels, mesh lines "
-                "(exact polyhedra, refinement sequences); a case is distinct by its full line; non-trivial = every accepted op")
+                "(exact polyhedra, refinement sequences, the same tessellations at sub-millimetre .. centimetre length units in exact / legacy / shell mode); a case is distinct by its full line; non-trivial = every accepted op")
     # ---- T: regenerate the user_util kernels from the working tree
     r = common.sh([sys.executable, os.path.join(common.VERIF, "translate", "c35_userutil.py")], timeout=900)
     ctx.oblige("translate/c35_userutil.py regenerates lean/MjProof/Gen/UserUtil.lean from the working tree", "translator",
